@@ -223,3 +223,135 @@ Proof.
       rewrite F, final_trace_of. discriminate.
     + destruct (flat_map tostream_doc_order ds); discriminate.
 Qed.
+
+(* ---- clean EOF from the tokenizer strictly inside a document is an error ------------------ *)
+Lemma docs_gen_rest : forall ds rest e,
+  runf_after init (tokens_docs ds ++ rest) e
+  = trace_of (flat_map tostream_doc_order ds) (runf_after init rest e).
+Proof.
+  induction ds as [|d ds IH]; intros rest e.
+  - reflexivity.
+  - cbn [tokens_docs flat_map]. rewrite <- app_assoc. unfold runf_after at 1, more_adj. rewrite more_tokens.
+    cbn [states init]. destruct stream_gen as [Hv _].
+    rewrite (Hv d [] TopValue [] _ e vt_top). cbn [adv].
+    rewrite trace_of_app. f_equal. apply IH.
+Qed.
+
+Lemma more_head : forall t a b, more (t :: a) = more (t :: b).
+Proof. intros [[]|] a b; reflexivity. Qed.
+
+Lemma more_prefix : forall v x l0 ts2, l0 <> [] -> tokens v ++ x = l0 ++ ts2 -> more l0 = true.
+Proof.
+  intros v x [|t l0'] ts2 H E; [congruence|].
+  pose proof (more_tokens v x) as M. rewrite E in M. cbn [app] in M.
+  now rewrite (more_head t l0' (l0' ++ ts2)).
+Qed.
+
+Definition R_value (v : value) : Prop :=
+  forall rp top tail ts1 ts2, vtop top -> tokens v = ts1 ++ ts2 -> ts1 <> [] -> ts2 <> [] ->
+    final_of (runf (mk rp (top :: tail)) ts1 EndEOF) = Err.
+Definition R_vlist (l : vlist) : Prop :=
+  forall rp i top tail ts1 ts2, top = ArrayStart \/ top = ArrayValue ->
+    tokens_l l ++ [TD RB] = ts1 ++ ts2 -> ts2 <> [] ->
+    final_of (runf (mk (PIdx i :: rp) (top :: tail)) ts1 EndEOF) = Err.
+Definition R_mlist (m : mlist) : Prop :=
+  forall rp top tail ts1 ts2, top = ObjectStart \/ top = ObjectValue ->
+    tokens_m m ++ [TD RC] = ts1 ++ ts2 -> ts2 <> [] ->
+    final_of (runf (mk rp (top :: tail)) ts1 EndEOF) = Err.
+
+Lemma single_split : forall (X : Type) (x : X) a b, [x] = a ++ b -> b <> [] -> a = [].
+Proof.
+  intros X x [|y a] b E H; [reflexivity|]. destruct a; destruct b; cbn in E; try congruence.
+  all: inversion E.
+Qed.
+
+Lemma eof_inside_gen : (forall v, R_value v) /\ (forall l, R_vlist l) /\ (forall m, R_mlist m).
+Proof.
+  apply value_vlist_mlist_ind; unfold R_value, R_vlist, R_mlist.
+  - (* scalar: no proper non-empty prefix *)
+    intros s rp top tail ts1 ts2 _ E H1 H2. cbn in E.
+    apply single_split in E; [contradiction | assumption].
+  - intros l IH rp top tail ts1 ts2 V E H1 H2.
+    destruct ts1 as [|t ts1']; [congruence|]. cbn [tokens app] in E. inversion E; subst t.
+    assert (S1 : forall s, s = mk rp (top :: tail) ->
+              runf s (TD LB :: ts1') EndEOF
+              = runf (mk (PIdx 0 :: rp) (ArrayStart :: adv top :: tail)) ts1' EndEOF).
+    { intros s ->. destruct V; reflexivity. }
+    rewrite (S1 _ eq_refl). eapply IH; eauto.
+  - intros m IH rp top tail ts1 ts2 V E H1 H2.
+    destruct ts1 as [|t ts1']; [congruence|]. cbn [tokens app] in E. inversion E; subst t.
+    assert (S1 : forall s, s = mk rp (top :: tail) ->
+              runf s (TD LC :: ts1') EndEOF
+              = runf (mk rp (ObjectStart :: adv top :: tail)) ts1' EndEOF).
+    { intros s ->. destruct V; reflexivity. }
+    rewrite (S1 _ eq_refl). eapply IH; eauto.
+  - (* VNil *)
+    intros rp i top tail ts1 ts2 V E H2. cbn [tokens_l app] in E.
+    apply single_split in E; [|assumption]. subst ts1. destruct V; subst; reflexivity.
+  - (* VCons *)
+    intros v IHv r IHr rp i top tail ts1 ts2 V E H2.
+    cbn [tokens_l] in E. rewrite <- app_assoc in E.
+    assert (VT : vtop top) by (destruct V; subst; constructor).
+    assert (A : adv top = ArrayValue) by (destruct V; subst; reflexivity).
+    assert (AFTER : forall l0, tokens_l r ++ [TD RB] = l0 ++ ts2 ->
+              final_of (runf (mk (PIdx i :: rp) (top :: tail)) (tokens v ++ l0) EndEOF) = Err).
+    { intros l0 E2. destruct stream_gen as [Hv _]. rewrite (Hv v _ _ _ _ _ VT), final_trace_of, A.
+      unfold runf_after. destruct l0 as [|t l0'].
+      - reflexivity.
+      - destruct r as [|v' r'].
+        + exfalso. cbn [tokens_l app] in E2. inversion E2 as [[T E3]].
+          symmetry in E3. apply app_eq_nil in E3. destruct E3; contradiction.
+        + unfold more_adj. cbn [tokens_l] in E2. rewrite <- app_assoc in E2.
+          rewrite (more_prefix v' (tokens_l r' ++ [TD RB]) (t :: l0') ts2 ltac:(discriminate) E2).
+          cbn [states path].
+          eapply IHr; [auto | cbn [tokens_l]; rewrite <- app_assoc; exact E2 | exact H2]. }
+    apply app_eq_app in E. destruct E as [l0 [[E1 E2]|[E1 E2]]]; [|subst ts1; apply AFTER; exact E2].
+    (* tokens v = ts1 ++ l0 *)
+    destruct ts1 as [|t ts1'].
+    + destruct V; subst; reflexivity.
+    + destruct l0 as [|t0 l0'].
+      * rewrite app_nil_r in E1. rewrite <- E1. rewrite <- (app_nil_r (tokens v)). apply AFTER.
+        cbn [app] in E2. rewrite E2. reflexivity.
+      * eapply IHv; eauto; discriminate.
+  - (* MNil *)
+    intros rp top tail ts1 ts2 V E H2. cbn [tokens_m app] in E.
+    apply single_split in E; [|assumption]. subst ts1. destruct V; subst; reflexivity.
+  - (* MCons *)
+    intros k v IHv r IHr rp top tail ts1 ts2 V E H2.
+    destruct ts1 as [|t ts1'].
+    { destruct V; subst; reflexivity. }
+    cbn [tokens_m app] in E. inversion E as [[T E']]. subst t. clear E. rewrite <- app_assoc in E'.
+    assert (S1 : forall s, s = mk rp (top :: tail) ->
+              runf s (TS (SStr k) :: ts1') EndEOF
+              = runf (mk (PKey (SStr k) :: rp) (ObjectKey :: tail)) ts1' EndEOF).
+    { intros s ->. destruct V; subst; reflexivity. }
+    rewrite (S1 _ eq_refl).
+    assert (AFTER : forall l0, tokens_m r ++ [TD RC] = l0 ++ ts2 ->
+              final_of (runf (mk (PKey (SStr k) :: rp) (ObjectKey :: tail)) (tokens v ++ l0) EndEOF) = Err).
+    { intros l0 E2. destruct stream_gen as [Hv _]. rewrite (Hv v _ _ _ _ _ vt_ok), final_trace_of. cbn [adv].
+      unfold runf_after. destruct l0 as [|t l0'].
+      - reflexivity.
+      - destruct r as [|k' v' r'].
+        + exfalso. cbn [tokens_m app] in E2. inversion E2 as [[T E3]].
+          symmetry in E3. apply app_eq_nil in E3. destruct E3; contradiction.
+        + unfold more_adj. cbn [tokens_m app] in E2. inversion E2 as [[T E3]]. subst t.
+          cbn [more states path]. eapply IHr; eauto. }
+    apply app_eq_app in E'. destruct E' as [l0 [[E1 E2]|[E1 E2]]]; [|subst ts1'; apply AFTER; exact E2].
+    destruct ts1' as [|t ts1''].
+    + reflexivity.
+    + destruct l0 as [|t0 l0'].
+      * rewrite app_nil_r in E1. rewrite <- E1. rewrite <- (app_nil_r (tokens v)). apply AFTER.
+        cbn [app] in E2. rewrite E2. reflexivity.
+      * eapply IHv; eauto; try discriminate. constructor.
+Qed.
+
+Lemma stream_truncated_eof_lemma : forall ds1 d ts1 ts2,
+  tokens d = ts1 ++ ts2 -> ts1 <> [] -> ts2 <> [] ->
+  final_of (stream_events (tokens_docs ds1 ++ ts1) EndEOF) = Err.
+Proof.
+  intros ds1 d ts1 ts2 E H1 H2. unfold stream_events. rewrite run_init, docs_gen_rest, final_trace_of.
+  unfold runf_after, more_adj.
+  rewrite (more_prefix d [] ts1 ts2) by (assumption || (rewrite app_nil_r; assumption)).
+  cbn [states init]. destruct eof_inside_gen as [Hv _].
+  eapply (Hv d); eauto. constructor.
+Qed.
